@@ -5,7 +5,6 @@ use crate::val::Val;
 use std::cell::Cell;
 use std::cmp::Ordering;
 use std::fmt;
-use std::rc::Rc;
 
 static FORMATTED: std::sync::atomic::AtomicBool = std::sync::atomic::AtomicBool::new(false);
 pub fn note_format() {
@@ -127,23 +126,67 @@ impl fmt::Display for StrValue {
     }
 }
 
-/// Array stand-in: at most a few already evaluated elements.
-#[derive(Clone, Debug)]
-pub struct ArrValue(pub Rc<Vec<Val>>);
+/// Array stand-in: at most two already evaluated *primitive* elements held inline. The element type
+/// is deliberately not `Val`: a recursive stand-in makes CBMC unwind drop glue recursively (DESIGN §0).
+#[derive(Clone, Copy, Debug)]
+pub enum Prim {
+    Null,
+    Bool(bool),
+    Num(f64),
+}
+impl Prim {
+    pub fn to_val(self) -> Val {
+        match self {
+            Prim::Null => Val::Null,
+            Prim::Bool(b) => Val::Bool(b),
+            Prim::Num(n) => Val::Num(crate::val::NumValue::new(n).expect("finite")),
+        }
+    }
+}
+#[derive(Clone, Copy, Debug)]
+pub struct ArrValue {
+    pub e: [Prim; 2],
+    pub n: u8,
+    /// identity token for `ptr_eq`
+    pub id: u8,
+}
+pub struct ArrIter {
+    a: ArrValue,
+    i: u8,
+}
+impl Iterator for ArrIter {
+    type Item = Result<Val>;
+    fn next(&mut self) -> Option<Self::Item> {
+        if self.i < self.a.n {
+            let v = self.a.e[self.i as usize].to_val();
+            self.i += 1;
+            Some(Ok(v))
+        } else {
+            None
+        }
+    }
+}
 impl ArrValue {
     pub fn len(&self) -> usize {
-        self.0.len()
+        self.n as usize
     }
-    pub fn iter(&self) -> impl Iterator<Item = Result<Val>> + '_ {
-        self.0.iter().map(|v| Ok(v.clone()))
+    pub fn iter(&self) -> ArrIter {
+        ArrIter { a: *self, i: 0 }
     }
     pub fn ptr_eq(a: &Self, b: &Self) -> bool {
-        Rc::ptr_eq(&a.0, &b.0)
+        a.id == b.id
     }
+    /// concatenation (C08 owns the real representation); truncated at two elements
     pub fn extended(a: Self, b: Self) -> Self {
-        let mut v: Vec<Val> = (*a.0).clone();
-        v.extend(b.0.iter().cloned());
-        ArrValue(Rc::new(v))
+        let mut out = a;
+        out.id = 255;
+        let mut i = 0;
+        while i < b.n && out.n < 2 {
+            out.e[out.n as usize] = b.e[i as usize];
+            out.n += 1;
+            i += 1;
+        }
+        out
     }
 }
 /// Object stand-in: an opaque token with no fields (objects are C02).
